@@ -1056,4 +1056,116 @@ theorem exec_interp (C : Ctx) (file : Str) (via : List (Str × Nat)) : ∀ g, P 
         | cont => exact ⟨t1, by simp only [after, hs]⟩
         | raise y => exact ⟨t1, by simp only [after, hs]⟩
 
+/-! ### the whole file -/
+theorem extendsOf_frag : ∀ (nodes : List Node) (st : FSt), frag st nodes = true → extendsOf nodes = [] := by
+  intro nodes
+  induction nodes with
+  | nil => intro _ _; rfl
+  | cons n ns ih =>
+    intro st h
+    cases n with
+    | text v l ws => simp only [frag] at h; simp only [extendsOf]; exact ih st h
+    | expr e l raw => simp only [frag] at h; simp only [extendsOf]; exact ih st h
+    | control s l body => simp only [frag, Bool.and_eq_true] at h; simp only [extendsOf]; exact ih st h.2
+    | inter s l =>
+      simp only [extendsOf]
+      cases st with
+      | ifChain =>
+        simp only [frag] at h
+        split at h
+        · exact ih _ h
+        · simp only [Bool.and_eq_true] at h; exact ih _ h.2
+      | forMain => simp only [frag, Bool.and_eq_true] at h; exact ih _ h.2
+      | plain => simp [frag] at h
+      | last => simp [frag] at h
+    | stmt s l => simp [frag] at h
+    | apply m l body => simp [frag] at h
+    | block name l body => simp [frag] at h
+    | «extends» name => simp [frag] at h
+    | incl name l => simp [frag] at h
+
+/-- without `{% extends %}` the root of the plan is the template itself -/
+theorem plan_root (L : Loader) (fuel : Nat) (t : FileInfo) (p : Plan) (h : extendsOf t.body = [])
+    (hp : plan L fuel t = .ok p) : p.root = t := by
+  cases fuel with
+  | zero => simp [plan, ancestors, bind, Except.bind] at hp
+  | succ f =>
+    simp only [plan, ancestors, h, List.mapM_nil, bind, Except.bind, pure, Except.pure, List.flatten_nil,
+      List.reverse_cons, List.reverse_nil, List.nil_append, List.mapM_cons] at hp
+    split at hp
+    · cases hp
+    · cases hp; rfl
+
+theorem hk_def : hdrKind (/-"def _tt_execute():"-/ [100, 101, 102, 32, 95, 116, 116, 95, 101, 120, 101, 99, 117, 116, 101, 40, 41, 58] : List Nat) = .defExec := by rfl
+
+/-- the lines of a file of the fragment are the lines of one `def _tt_execute():` block -/
+theorem generatePython_frag (L : Loader) (fuel : Nat) (t : FileInfo) (lines : List Line) (p : Plan)
+    (hfrag : frag .plain t.body = true) (hp : plan L fuel t = .ok p) (hgen : generatePython L fuel t = .ok lines) :
+    lines = flatList 0 [.block (/-"def _tt_execute():"-/ [100, 101, 102, 32, 95, 116, 116, 95, 101, 120, 101, 99, 117, 116, 101, 40, 41, 58] : List Nat) ⟨t.name, 0, []⟩
+      (.simple (/-"_tt_buffer = []"-/ [95, 116, 116, 95, 98, 117, 102, 102, 101, 114, 32, 61, 32, 91, 93] : List Nat) ⟨t.name, 0, []⟩ ::
+       .simple (/-"_tt_append = _tt_buffer.append"-/ [95, 116, 116, 95, 97, 112, 112, 101, 110, 100, 32, 61, 32, 95, 116, 116, 95, 98, 117, 102, 102, 101, 114, 46, 97, 112, 112, 101, 110, 100] : List Nat) ⟨t.name, 0, []⟩ ::
+       ((emitBody t.name [] t.autoescape t.body).1 ++
+        [.simple (/-"return _tt_utf8('').join(_tt_buffer)"-/ [114, 101, 116, 117, 114, 110, 32, 95, 116, 116, 95, 117, 116, 102, 56, 40, 39, 39, 41, 46, 106, 111, 105, 110, 40, 95, 116, 116, 95, 98, 117, 102, 102, 101, 114, 41] : List Nat) ⟨t.name, 0, []⟩]))] := by
+  have hroot := plan_root L fuel t p (extendsOf_frag _ _ hfrag) hp
+  have hsecs : (emitBody t.name [] t.autoescape t.body).2 = [] := by
+    have h1 := (frag_split t.body .plain hfrag).2
+    have h2 := (emit_split t.name [] t.autoescape t.body).2
+    rw [secsOK_plain h1] at h2
+    exact secRel_nil_right h2
+  simp only [generatePython, hp, bind, Except.bind, hroot] at hgen
+  split at hgen
+  · cases hgen
+  · rename_i herr
+    simp only [pure, Except.pure, Except.ok.injEq] at hgen
+    subst hgen
+    simp only [fileLines] at herr ⊢
+    have := gen_emit L p.named fuel .plain t.body _ hfrag herr
+    rw [this]
+    simp [W.app, W.write, W.writeAt, W.writeHdr, viaOf, bodyLines, hsecs, secLines, flatList, PStmt.flat,
+      flatList_append, List.append_assoc]
+
+/-- **on the fragment the generated Python, run under `pyRun`, gives what the interpreter defines** — the output
+bytes, or the same exception type — whenever the interpreter's outcome is defined by the template language
+(not `Fuel`: the interpreter's fuel ran out; not `Unsupported`: outside the expression pool of `Spec.lean`). -/
+theorem pyRun_render (L : Loader) (t : FileInfo) (env : Env) (fuel : Nat) (lines : List Line)
+    (hfrag : frag .plain t.body = true) (hgen : generatePython L fuel t = .ok lines)
+    (hF : render L fuel t env ≠ .error (/-"Fuel"-/ [70, 117, 101, 108] : List Nat))
+    (hU : render L fuel t env ≠ .error (/-"Unsupported"-/ [85, 110, 115, 117, 112, 112, 111, 114, 116, 101, 100] : List Nat)) :
+    pyRun lines env = render L fuel t env := by
+  cases hp : plan L fuel t with
+  | error e => simp [generatePython, hp, bind, Except.bind] at hgen
+  | ok p =>
+    have hroot := plan_root L fuel t p (extendsOf_frag _ _ hfrag) hp
+    have hlines := generatePython_frag L fuel t lines p hfrag hp hgen
+    simp only [render, hp, hroot] at hF hU ⊢
+    have hgood : Good (interp ⟨L, p.named⟩ fuel t t.body [] env).sig := by
+      constructor
+      · intro h; rw [h] at hF; exact hF rfl
+      · intro h; rw [h] at hU; exact hU rfl
+    obtain ⟨t1, hmain⟩ := exec_interp ⟨L, p.named⟩ t.name [] fuel t t.body [] env hfrag hgood .none .unset
+      [.simple (/-"return _tt_utf8('').join(_tt_buffer)"-/ [114, 101, 116, 117, 114, 110, 32, 95, 116, 116, 95, 117, 116, 102, 56, 40, 39, 39, 41, 46, 106, 111, 105, 110, 40, 95, 116, 116, 95, 98, 117, 102, 102, 101, 114, 41] : List Nat) ⟨t.name, 0, []⟩]
+      (insens_simple _ _ _ (by rw [classify_retJoin]; simp))
+    unfold pyRun
+    rw [hlines, parseLines_flat]
+    simp only [hk_def]
+    rw [execList_simple]; unfold execSimple; rw [classify_initBuf]; simp only []
+    rw [execList_simple]; unfold execSimple; rw [classify_bindAppend]; simp only []
+    rw [hmain]
+    generalize interp ⟨L, p.named⟩ fuel t t.body [] env = r
+    unfold after
+    cases hs : r.sig with
+    | normal =>
+      simp only []
+      rw [execList_simple]; unfold execSimple; rw [classify_retJoin]
+    | brk => rfl
+    | cont => rfl
+    | raise x => rfl
+
+/-! ### a concrete template of the fragment (non-vacuity examples in `Props.lean`) -/
+def exT : FileInfo := ⟨[116], [.text [97, 10] 1 .all, .expr [120] 2 false,
+  .control [105, 102, 32, 120] 2 [.text [98] 2 .all, .inter [101, 108, 115, 101] 2, .text [99] 2 .all],
+  .control [102, 111, 114, 32, 121, 32, 105, 110, 32, 108] 3 [.expr [121] 3 true, .inter [101, 108, 115, 101] 3, .text [100] 3 .all]],
+  some [120, 104, 116, 109, 108, 95, 101, 115, 99, 97, 112, 101]⟩
+def exEnv : Env := [([120], .atom (.str [60])), ([108], .list [.int 1, .bytes [38]])]
+
 end TornadoModel.C19
